@@ -323,7 +323,11 @@ def judge(case, scenario, run):
             request = scenario.service.demand
             covered = sum(child.state["demand"] for child in scenario.keep
                           if child.state["demand"] > 0)
-            if covered < request:
+            # the documented decision: the pool shrinks while its supply (released children
+            # that still drain included) exceeds the demand, and grows otherwise - only a
+            # pool that was to grow has to cover the request
+            supply = sum(child.state["supply"] for child in scenario.keep)
+            if supply <= request and covered < request:
                 return "FactoryPool.run:adjustment-without-effect", (
                     "after the boundaries %s (last environment action at t=%s) the children in "
                     "demand provide %s of the requested %s" % (settled, last_action, covered,
